@@ -169,7 +169,9 @@ def r02b(ck, prog, groups):
                     raise AnalysisBroken("R02b: task body at %s / %s is not a direct call; effect summaries need a callee" % (t1.loc, t2.loc))
                 npairs += 1
                 where = site(prog, t1, "%s||%s" % (b1.callee, b2.callee))
-                recursive = b1.callee == fname and b2.callee == fname
+                # the merge recursion shares msa / task list by design and is decided by the node-id shape rule below;
+                # any other pair of recursive siblings (the k-means bisection) gets the generic effect comparison
+                recursive = b1.callee == fname and b2.callee == fname and fname == "recursive_aln"
                 found = []
                 for i, a1 in enumerate(b1.args if not recursive else []):
                     if not a1.ty.endswith("*"):
